@@ -292,7 +292,16 @@ class C05Blocks(Oracle):
                     anc = {a.arg for a in node.ancestors() if a.kind == "Block"}
                     bad = [b for b in self.stack if b not in anc]
                     if bad:
-                        self.v("C05", "C05.block_started_beside_active_block", "Block",
+                        def owner(nd):      # the interrupt (Watch / Alarm) whose body opens the block; None = main path
+                            return next((a.id for a in nd.ancestors() if a.kind in ("Watch", "Alarm")), None)
+                        others = {owner(self.by_name[b]) for b in bad if b in self.by_name}
+                        ctx = ""
+                        if owner(node) is not None and others and owner(node) not in others and None not in others:
+                            # two interrupts run at the same time and each opens a block of its own: the engine has one
+                            # global block stack, the two blocks are active side by side (kept apart from the plain kind)
+                            ctx = "@concurrent_interrupts"
+                            self.tainted = "@after_concurrent_interrupt_blocks"
+                        self.v("C05", "C05.block_started_beside_active_block" + ctx, "Block",
                                f"block {name} started while {bad} active; its ancestors are {sorted(anc)}")
                 self.stack.append(name)
             elif e[1] == "block_end":
@@ -345,14 +354,17 @@ class C13Errors(Oracle):
         errs = [e for e in evs if e[1] == "method_error"]
         now_failed = set(w.method_state().failed_line_ids)
         newly = now_failed - self.prev_failed
-        if newly and w.state in ("Running", "Holding") and "edit" not in w.ctx_flags and \
+        # a user Stop / Restart that is executing (accepted at most two ticks ago) cancels every command, including a
+        # timed Pause whose cancellation unpauses: the run is on its way to Stopped, not "Running with an error"
+        stopping = any(r[1] == "control" and r[2] in ("Stop", "Restart") and r[3] and w.tick_no - r[0] <= 2 for r in w.requests)
+        if newly and w.state in ("Running", "Holding") and "edit" not in w.ctx_flags and not stopping and \
                 not any(e[1] in ("start", "stop") for e in evs):
             self.v("C13", "C13.failed_instruction_did_not_pause", w.state,
                    f"line(s) {sorted(newly)} failed in tick {w.tick_no} but System State is {w.state} "
                    f"(Method Status {w.tag('Method Status')!r})")
         if errs:
             self.res.probe("method_error")
-            if w.state not in ("Paused", "Stopped", "Restarting"):
+            if w.state not in ("Paused", "Stopped", "Restarting") and not stopping:
                 self.v("C13", "C13.error_did_not_pause", errs[0][2], f"method error {errs[0][2]} but state {w.state}")
             elif w.state == "Paused" and w.tag("Method Status") != "Error":
                 self.v("C13", "C13.error_status_not_set", errs[0][2],
@@ -816,17 +828,25 @@ class C04Interrupts(Oracle):
                     grants -= 1
                     ok = True
                 if not ok and not self.rejected_force:
-                    self.v("C04", "C04.body_ran_without_condition", n.kind,
+                    # the force flag lives on the node: when a re-arming Alarm has registered the Watch more than once, one
+                    # accepted force request lets every pending invocation through (kept apart from the plain kind)
+                    ctx = "@force_in_repeating_scope" if self.forced.get(n.id, 0) > 0 and in_repeating_scope(n) else ""
+                    self.v("C04", "C04.body_ran_without_condition" + ctx, n.kind,
                            f"{n.kind} {n.arg!r} activated in tick {a}; the harness saw the condition true only in ticks "
                            f"{trues[:6]} (accepted force requests for it: {self.forced.get(n.id, 0)})")
                 else:
                     self.res.probe("activation_checked")
             co = self.cancelled_offered_at.get(n.id)
-            if co is not None and any(a > co for a in acts):
+            # a Watch in a repeating scope is registered anew by every invocation of that scope: only activations that
+            # follow the cancel without a new registration in between belong to the cancelled invocation
+            regs = [e[0] for e in w.events if e[1] == "scope_start" and e[2] == n.id]
+            late = [a for a in acts if co is not None and a > co and not any(co < r <= a for r in regs)]
+            if co is not None and late:
                 # the cancel was offered by the run log at request time (tick co complete) and accepted, yet the body was
                 # entered in a later tick
                 self.v("C12", "C12.cancelled_watch_body_ran", n.kind,
-                       f"{n.kind} {n.arg!r}: cancel offered and accepted after tick {co}, body activated in ticks {acts}")
+                       f"{n.kind} {n.arg!r}: cancel offered and accepted after tick {co}, body activated in ticks {late} "
+                       f"(registrations {regs})")
             ca = self.cancelled_at.get(n.id)
             if ca is not None and any(a > ca + 1 for a in acts):
                 self.v("C04", "C04.body_ran_after_cancel", n.kind,
@@ -1163,7 +1183,8 @@ class C12CancelForce(Oracle):
                                f"{p['name']!r} cancelled in tick {p['tick']} but the run is still {bad} two ticks later")
                     self.pending.remove(p)
                 elif p["base"] in model.UOD and age >= 1:
-                    later = [ev for ev in w.plog.events[p["cmd_events"]:] if ev[2] == p["base"]]
+                    # the run-log item id is the instance id of the invocation: only that instance is the cancelled one
+                    later = [ev for ev in w.plog.events[p["cmd_events"]:] if ev[2] == p["base"] and ev[6] == str(p["id"])]
                     # the cancelled instance must be finalized and never execute again
                     self.pending.remove(p)
                     names = [ev[1] for ev in later]
